@@ -20,7 +20,8 @@ where
     // &'py PyArray1<Dual>
     let a1 = Array1::from_vec(a);
     let b_ = Array1::from_vec(b);
-    let (r, c) = (a1.len() / b_.len(), b_.len());
+    // `a` is the row-major flattening of a matrix with one row per element of `b`.
+    let (r, c) = (b_.len(), a1.len() / b_.len());
     let a2 = a1
         .into_shape_with_order((r, c))
         .expect("Inputs `a` and `b` for dual solve were incorrect shapes");
